@@ -180,9 +180,7 @@ def _returned_substitution(prog, fn):
         sub = substitution(render(s.ret))
         if sub is None:
             raise AnalysisError('%s: unrecognised implementation shape: %s' % (fn.qualname, render(s.ret)[:120]))
-        if T.show(sub[-1]) != ps[0]:
-            raise AnalysisError('%s: the substitution is not applied to the argument itself: %s' % (fn.qualname, T.show(sub[-1])))
-        subs.append(sub[:-1])
+        subs.append(sub[:-1] + (T.show(sub[-1]) == ps[0], T.show(sub[-1])))
     if not subs or any(x != subs[0] for x in subs):
         raise AnalysisError('%s: paths disagree about the substitution' % fn.qualname)
     return subs[0]
@@ -196,6 +194,10 @@ def dash_pair(rep, prog, M):
     rep.saw(fn=esc)
     rep.saw(fn=une)
     e, u = _returned_substitution(prog, esc), _returned_substitution(prog, une)
+    for fn, sub in ((esc, e), (une, u)):
+        rep.check(sub[-2], 'C11.1', 'PGPMessage.%s' % fn.name, 'applied to %s' % sub[-1], 'the substitution must run over the text that was passed in, unchanged',
+                  where=fn.where, expected=_own_params(fn)[0], found=sub[-1])
+    e, u = e[:-2], u[:-2]
     if e[0] == 'replace':
         rep.violation('C11.1', 'PGPMessage.dash_escape', 'str.replace(%r, %r)' % (e[1], e[2]),
                       'escaping by replacing %r cannot match at the very start of the text: a first line beginning with "-" is not escaped' % e[1],
